@@ -333,9 +333,9 @@ def DIAG(p0=None, p1=None, p2=None):
     b = run_reference(p0, p1, p2)
     return a[:2] == b[:2]'''
     T = "Union[None, bool, int]"
-    srcm = harness(f"p0: {T}, p1: {T}, p2: {T}", body, pre=[f"(p{i} is None or isinstance(p{i}, bool) or -1 <= p{i} <= 2)" for i in range(3)],   # no truthiness test: `p or 0` forks on p != 0
+    srcm = harness(f"p0: {T}, p1: {T}, p2: {T}", body, pre=[f"(p{i} is None or isinstance(p{i}, bool) or 0 <= p{i} <= 1)" for i in range(3)],   # ints end up realised (persistent collections are C code): keep the range small
                    module_code=mod, warm=[(None, True, 1), (False, 0, 2)])
-    return Spec(name, srcm, timeout=timeout, bound="parameters nil/bool/int(-1..2), all values", meta={"src": src, "opts": opts_dict(opts)})
+    return Spec(name, srcm, timeout=timeout, bound="parameters nil / true / false / 0 / 1", meta={"src": src, "opts": opts_dict(opts)})
 
 
 def gen_spec(name, src, opts, timeout, features):
@@ -372,9 +372,9 @@ def DIAG(p0=None, p1=None, p2=None):
 '''
     body = '''    return same(run_compiled(p0, p1, p2), run_reference(p0, p1, p2))'''
     T = "Union[None, bool, int]"
-    srcm = harness(f"p0: {T}, p1: {T}, p2: {T}", body, pre=[f"(p{i} is None or isinstance(p{i}, bool) or -1 <= p{i} <= 2)" for i in range(3)],
+    srcm = harness(f"p0: {T}, p1: {T}, p2: {T}", body, pre=[f"(p{i} is None or isinstance(p{i}, bool) or 0 <= p{i} <= 1)" for i in range(3)],
                    module_code=mod, warm=[(None, True, 1), (False, 0, 2)])
-    return Spec(name, srcm, timeout=timeout, bound="generated program (depth <= 3); parameters nil/bool/int(-1..2), all values; Vars g0/g1 reset before each call",
+    return Spec(name, srcm, timeout=timeout, bound="generated program (depth <= 3); parameters nil / true / false / 0 / 1; Vars g0/g1 reset before each call",
                 meta={"src": src, "opts": opts_dict(opts), "generated": True, "features": features})
 
 
@@ -426,7 +426,7 @@ def run(rep, tier, seed):
     rep.extra["programs"] = len(specs)
     rep.bounds = {"programs": f"{len(C01_BODIES)} bodies x {len(C01_CONTEXTS)} contexts x 8 option sets = {total}; "
                               f"this run: {len(specs)} (quick: all bodies in fn-body + VERIF_SEED sample)",
-                  "inputs": "3 parameters, each nil/true/false/int -3..3 (solver-decided); loops <= 12 iterations"}
+                  "inputs": "3 parameters, each nil / true / false / 0 / 1 (solver-decided; ints are realised at the persistent-collection boundary, so the range is kept small); loops <= 12 iterations"}
     rep.outside = ["program shapes are a fixed corpus plus a seeded generated sample, not solver-chosen", "interop, deftype/reify, macros, async"]
     rep.trusted += ["crosshair-tool 0.0.110 + z3", "reference evaluator (vlib/props/c01.py REFEVAL, ~200 lines)"]
     rep.extra["explanation"] = "per program, CrossHair explores every path of the compiled function over symbolic parameters and compares with the reference evaluator"
